@@ -1414,3 +1414,68 @@ func derivesAllLive(v ssa.Value, at *ssa.BasicBlock, pred func(ssa.Value) bool, 
 	}
 	return rec(v, 0)
 }
+
+// headerUpperBound: the value B when the loop header's branch is `idx < B`
+// (or the mirrored `B > idx`) with the loop body on the true edge; nil otherwise.
+func headerUpperBound(hdr *ssa.BasicBlock, idx ssa.Value) ssa.Value {
+	if len(hdr.Instrs) == 0 {
+		return nil
+	}
+	iff, ok := hdr.Instrs[len(hdr.Instrs)-1].(*ssa.If)
+	if !ok {
+		return nil
+	}
+	cmp, ok := iff.Cond.(*ssa.BinOp)
+	if !ok {
+		return nil
+	}
+	switch {
+	case cmp.Op == token.LSS && sameValue(cmp.X, idx):
+		return cmp.Y
+	case cmp.Op == token.GTR && sameValue(cmp.Y, idx):
+		return cmp.X
+	}
+	return nil
+}
+
+// reachesPruned: some instruction satisfying target is reachable from the edge
+// p -> b, pruning branches decided by the phi values of the edge just taken
+// (see feasibleSuccs).
+func reachesPruned(p, b *ssa.BasicBlock, target func(ssa.Instruction) bool) bool {
+	type st struct{ b, p *ssa.BasicBlock }
+	seen := map[st]bool{}
+	work := []st{{b, p}}
+	for len(work) > 0 {
+		x := work[len(work)-1]
+		work = work[:len(work)-1]
+		if seen[x] {
+			continue
+		}
+		seen[x] = true
+		for _, i := range x.b.Instrs {
+			if target(i) {
+				return true
+			}
+		}
+		for _, si := range feasibleSuccs(x.b, x.p) {
+			work = append(work, st{x.b.Succs[si], x.b})
+		}
+	}
+	return false
+}
+
+// sameLocalLoad: a and b are the same value, or two loads of one local variable
+// that is stored to exactly once (`v, err := parse(...)` whose address is taken
+// later, so that every use is a load).
+func sameLocalLoad(a, b ssa.Value) bool {
+	if a == b {
+		return true
+	}
+	la, ok1 := a.(*ssa.UnOp)
+	lb, ok2 := b.(*ssa.UnOp)
+	if !ok1 || !ok2 || la.Op != token.MUL || lb.Op != token.MUL || la.X != lb.X {
+		return false
+	}
+	al, ok := la.X.(*ssa.Alloc)
+	return ok && uniqueStore(al) != nil
+}
